@@ -34,8 +34,9 @@ func (Prop) Rule() string {
 		"Pair laws on A x A (40x40 small, 24x24 structured incl. n-a, n, n+1, 2^256-1): [a]P+[b]P = [(a+b) mod n]P (also with aliased destinations and swapped operands), [b]([a]P) = [ab mod n]P, Double; " +
 		"identity / inverse / order-n cases; bilinearity e([a]P1,[b]P2) = e(P1,P2)^(ab mod n) on a 12x12 product (24x24 thorough) incl. a or b = 0 mod n, additivity in both arguments, " +
 		"Miller+Finalize = Pair, e(P1,P2) != 1 and e(P1,P2)^n = 1; GM/T 0044.5 annex values of e(P1,Ppub-s), e(RA,deB), e(Ppub-e,P2)^rB, Ppub-s, deB. " +
-		"E3 on the prefix decoders G1/G2/GT.Unmarshal and G1/G2.UnmarshalCompressed (fresh and used receiver): for each valid element, each coordinate in {p, c+p if < 2^256, 2^256-1, c+1, c-1, p-c}, " +
-		"infinity forms (all-zero accepted; (0,p),(p,0),(p,p) rejected), every input length below one element (error), tails (returned exactly), all 256 prefix bytes of compressed forms; " +
+		"E3 on the prefix decoders G1/G2/GT.Unmarshal and G1/G2.UnmarshalCompressed (fresh and used receiver): for each of 20 (GT: 10; thorough 60/20) valid elements, each coordinate in {p, p-1, p+1, 0, c+p if < 2^256, 2^256-1, c+1, c-1, p-c, c xor 2^255, c with each bit of its last byte flipped} " +
+		"(thorough: also all pairs of coordinates for the first six elements), infinity forms (all-zero accepted; zero vector with p / 2^256-1 / 1 in every subset of coordinates rejected), x = 0 compressed forms, " +
+		"every input length below one element (error), tails (returned exactly), all 256 prefix bytes of compressed forms; " +
 		"oracle: accept <=> every coordinate of the leading element < p and the element is on the curve (reference affine predicate; GT: range only, non-members may be rejected or accepted), " +
 		"tail = rest, Marshal(result) = consumed prefix. " +
 		"distinct_nontrivial counts distinct (group, law, scalar / scalar pair / decoder input class) instances."
